@@ -357,7 +357,27 @@ static void sim_case(Case& c) {
                 // the library's neighbour kernel (one shift for all sources) never does. Every call is logged; the
                 // protocol line carries the destinations in call order.
                 std::vector<std::pair<int, int>> table((size_t)(rows * cols));
-                std::pair<int, int> hub1{rng.in(0, rows - 1), rng.in(0, cols - 1)}, hub2{rng.coin(25) ? rows + rng.in(0, 1) : rng.in(0, rows - 1), rng.coin(25) ? -1 - rng.in(0, 1) : rng.in(0, cols - 1)};
+                // a third of these calls first take the susceptible hosts away from up to two cells that will send pests
+                // (both landscapes alike, announced with a state line): a destination without room whose own departure
+                // makes room is where "all departures before any arrival" matters
+                if (rng.coin(35)) {
+                    int done = 0;
+                    for (int a = 0; a < rows && done < 2; a++) for (int b = 0; b < cols && done < 2; b++)
+                        if (w.h.i(a, b) >= 2 && w.h.s(a, b) > 0 && rng.coin(50)) {
+                            w.h.th(a, b) -= w.h.s(a, b); w.h.s(a, b) = 0; d.h.th(a, b) -= d.h.s(a, b); d.h.s(a, b) = 0; done++;
+                        }
+                    if (done) { out << "hp.state => " << w.h.snapshot() << "\n"; stats.add("overpop_sources_saturated_first"); }
+                }
+                std::pair<int, int> hub1{rng.in(0, rows - 1), rng.in(0, cols - 1)};
+                // often the first hub is itself a cell that will send pests away, preferably one without susceptible
+                // hosts: its own departure frees hosts only in the first stage, arrivals are decided in the second
+                if (rng.coin(60)) {
+                    std::vector<std::pair<int, int>> srcs, sat;
+                    for (int a = 0; a < rows; a++) for (int b = 0; b < cols; b++) if (w.h.i(a, b) >= 2) { srcs.push_back({a, b}); if (w.h.s(a, b) == 0) sat.push_back({a, b}); }
+                    if (!sat.empty() && rng.coin(70)) { hub1 = rng.pick(sat); stats.add("overpop_hub_is_saturated_source"); }
+                    else if (!srcs.empty()) { hub1 = rng.pick(srcs); stats.add("overpop_hub_is_source"); }
+                }
+                std::pair<int, int> hub2{rng.coin(25) ? rows + rng.in(0, 1) : rng.in(0, rows - 1), rng.coin(25) ? -1 - rng.in(0, 1) : rng.in(0, cols - 1)};
                 for (auto& t : table) { int k = rng.in(0, 99); t = k < 50 ? hub1 : k < 80 ? hub2 : std::make_pair(rng.in(-1, rows), rng.in(-1, cols)); }
                 std::vector<std::pair<int, int>> calls;
                 TableKernel kern{&table, cols, &calls}, dkern{&table, cols, nullptr};
